@@ -102,11 +102,17 @@ def handleResume (toks : List String) : Option String := do
   -- run 2 either as one `simulate()` or as `simulate(0)`, …, `simulate(n-1)` followed by `simulate()`
   let via := (kv toks "via").getD "all"
   let doRun2 (d : Disk Res Nat) : RunEnd Res Nat × Disk Res Nat :=
-    if via = "singles" then
-      let s := simSinglesC cfg2 (List.range n2) d ⟨0, clk2⟩ outs2
+    if via.startsWith "singles" then
+      -- "singles" = every index 0 … n-1; "singles:3,256,257" = only these
+      let idxs := match via.splitOn ":" with
+        | [_, l] => (parseNatList? l).getD []
+        | _ => List.range n2
+      let s := simSinglesC cfg2 idxs d ⟨0, clk2⟩ outs2
       let ds := d.applyAll s.trace
       match s.status with
-      | some _ => (s, ds)
+      | some _ =>
+        -- a `simulate(index)` call keeps no results list: nothing is reported when one of them raises
+        (⟨s.trace, [], [], s.rest, s.clock, s.status⟩, ds)
       | none =>
         let e := simC cfg2 ds s.clock s.rest
         (⟨s.trace ++ e.trace, e.results, e.reps, e.rest, e.clock, e.status⟩, ds.applyAll e.trace)
